@@ -1,4 +1,6 @@
 import Aurora.Lemmas.ChunkPyramid
+import Aurora.Model.NodeLite
+import Aurora.Generated.DeleteFacts
 /-!
 # C16 — Deleting one file never breaks another
 
@@ -216,3 +218,37 @@ example :
       (2, 1, [6, 7], [1, 5, 1]) := by decide
 
 end Aurora.ChunkPyramid
+
+namespace Aurora.NodeLite
+open Aurora.Generated.DeleteFacts
+
+/-- **static obligation** (facts regenerated from pkg/api/dirs.go and pkg/chunkinfo/chunkinfo.go on every
+    run, harness/cmd/extract/delete_facts.go): list-then-remove of the DELETE handler is ONE step under
+    chunkinfo's lock.  `auroraDeleteHandler` calls `DelFile` exactly once, with a function literal of the
+    handler as callback; every `GetChunkPyramid` call of the handler (there is one) and every
+    `Set(ModeSetRemove)` sits inside that literal; `(*ChunkInfo).DelFile` starts with
+    `ci.syncLk.Lock(); defer ci.syncLk.Unlock()` and calls the callback in its own body.  This is what
+    `apiDelete` (list and removal from the same state) and `apiDeleteHeld` (an overlapping operation is
+    ordered entirely before the list is computed) assume.  The seeded change C16-3 hoists the
+    `GetChunkPyramid` call out of the callback: its row becomes `(line, false)` and this fails. -/
+theorem C16_delete_list_computed_under_lock :
+    handlerFound = true ∧
+    delFileCalls.length = 1 ∧ delFileCalls.all (·.2) = true ∧
+    getChunkPyramidCalls ≠ [] ∧ getChunkPyramidCalls.all (·.2) = true ∧
+    removeCalls ≠ [] ∧ removeCalls.all (·.2) = true ∧
+    delFileLocks = true ∧ delFileMutex = "syncLk" ∧ delFileCallsCallback = true := by
+  decide
+
+/-- **Overlapping delete = sequential composition in lock order.**  A DELETE of `f` that overlaps with
+    another operation `during` (upload or DELETE of another file, completed while the handler waits at
+    the entry of `DelFile`) is that operation followed by the whole delete: the list of chunks to remove
+    is `getUnRepeatChunk` of the reference counts AFTER `during`.  Together with
+    `C16_delete_preserves_others` / `C16_delete_leaves_no_orphans` (which hold in every well-formed
+    state, in particular the one after `during`): a file registered meanwhile keeps its chunks, and a
+    file deleted meanwhile no longer protects them.  The `delr` op of the correspondence run executes
+    exactly this schedule on the real node. -/
+theorem C16_overlapping_delete_is_sequential (s : State) (f : Aurora.ChunkPyramid.FileS)
+    (during : State → State) :
+    apiDeleteHeld s f during = apiDelete (during s) f := rfl
+
+end Aurora.NodeLite
